@@ -341,7 +341,7 @@ def oracle(ctx: vlib.Ctx, n_schemas: int, n_values: int, focus: str | None = Non
             elif wrap == "dict":
                 shapes.append((L.T("dict", L.T("str"), root), None))
             elif wrap == "opt":
-                shapes.append((L.T("opt", root), None))
+                shapes.append((L.T("opt", root, rng.choice([None, "annotated", "union"])), None))
             elif wrap == "tuple":
                 shapes.append((L.T("tuplefix", [root, L.T("int")]), None))
             else:
